@@ -14,12 +14,21 @@
     * Horn's identity, and exactness: if the structure points are a proper rigid image of the
       template points and the quaternion maximises the quadratic form (= is a top eigenvector),
       every template point is mapped onto its image.
+    * the requested torsion: turning the moved atom about the axis by `diff` degrees turns the
+      pair (cosine, sine) of the torsion — exactly the quantities `utilities.dihedral` computes —
+      by `diff`; the value `dihedral` returns has that cosine and sine; so after
+      `set_dihedral_angle` the torsion's cosine and sine are those of the requested angle, and after
+      ANY number of successive changes through the cache (each one re-measuring) those of the last
+      requested angle (`torsion_rotates`, `dihedral_value`, `torsion_set`, `torsion_sequence`).
   Not proved (validated numerically on every sample, see evidence): that 30 Jacobi sweeps reach
-  the maximiser; floating-point rounding; the measured torsion after `set_dihedral_angle`
-  (the oracle checks it to 0.05° on the real code). Partial on exactly those.
+  the maximiser; floating-point rounding; requested angles within 0.03 degrees of 0 or 180, where
+  `dihedral` snaps its result (the oracle checks the measured torsion to 0.05° on the real code).
+  Partial on exactly those.
 -/
 import P2P.Model.Geom
 import P2P.Proofs.GeomLemmas
+import P2P.Proofs.DihedralLemmas
+import P2P.Proofs.DihedralSeq
 
 namespace P2P.Props.C15
 open P2P.Geom P2P.Proofs.Geom
@@ -94,5 +103,58 @@ theorem horn_exact (defs : List (V3 ℝ)) (g0 g1 g2 g3 q0 q1 q2 q3 : ℝ)
 /-! ### non-vacuity -/
 example : (1 : ℝ) ^ 2 + 0 ^ 2 + 0 ^ 2 + 0 ^ 2 = 1 := by norm_num
 example : V3.dot (⟨0, 0, 1⟩ : V3 ℝ) ⟨0, 0, 1⟩ = 1 := by simp [V3.dot]
+
+/-! ### the requested torsion -/
+
+section torsion
+open P2P.Rigid P2P.Proofs.Dihedral
+
+/-- the cosine and sine of a torsion, as `utilities.dihedral` computes them, lie on the unit circle -/
+theorem torsion_unit (c1 c2 c3 c4 : V3 ℝ) (h : NonDeg c1 c2 c3 c4) :
+    cosTor c1 c2 c3 c4 ^ 2 + sinTor c1 c2 c3 c4 ^ 2 = 1 :=
+  tor_unit_core c1 c2 c3 c4 h
+
+/-- **Turning the moved atom by `diff` degrees turns the torsion by `diff`**: for all positions
+(c1 and c4 off the axis) and every angle -/
+theorem torsion_rotates (c1 c2 c3 c4 : V3 ℝ) (h : NonDeg c1 c2 c3 c4) (diff : ℝ) :
+    cosTor c1 c2 c3 (torsionMap c2 c3 diff c4) =
+      Real.cos (rad diff) * cosTor c1 c2 c3 c4 - Real.sin (rad diff) * sinTor c1 c2 c3 c4 ∧
+    sinTor c1 c2 c3 (torsionMap c2 c3 diff c4) =
+      Real.sin (rad diff) * cosTor c1 c2 c3 c4 + Real.cos (rad diff) * sinTor c1 c2 c3 c4 :=
+  tor_rotates_core c1 c2 c3 c4 h diff
+
+/-- the value `utilities.dihedral` returns has exactly that cosine and sine (outside the two
+branches in which it snaps to 0 or 180 degrees) -/
+theorem dihedral_value (c1 c2 c3 c4 : V3 ℝ) (h : NonDeg c1 c2 c3 c4) (small : ℝ) (hs : 0 < small)
+    (hgen : ¬ |cosTor c1 c2 c3 c4 + 1| < small ∧ ¬ |cosTor c1 c2 c3 c4 - 1| < small) :
+    Real.cos (rad (dihedral (180 / Real.pi) small c1 c2 c3 c4)) = cosTor c1 c2 c3 c4 ∧
+    Real.sin (rad (dihedral (180 / Real.pi) small c1 c2 c3 c4)) = sinTor c1 c2 c3 c4 :=
+  dihedral_value_core c1 c2 c3 c4 h small hs hgen
+
+/-- **Setting a torsion to a requested angle leaves the torsion at that angle**: turning by
+`angle - old`, where `old` is the measured torsion, gives a torsion whose cosine and sine are those
+of `angle` -/
+theorem torsion_set (c1 c2 c3 c4 : V3 ℝ) (h : NonDeg c1 c2 c3 c4) (old angle : ℝ)
+    (hold : Real.cos (rad old) = cosTor c1 c2 c3 c4 ∧ Real.sin (rad old) = sinTor c1 c2 c3 c4) :
+    cosTor c1 c2 c3 (torsionMap c2 c3 (angle - old) c4) = Real.cos (rad angle) ∧
+    sinTor c1 c2 c3 (torsionMap c2 c3 (angle - old) c4) = Real.sin (rad angle) :=
+  tor_set_core c1 c2 c3 c4 h old angle hold
+
+/-- **Any number of successive changes of one torsion** (the debumping scan): each change reads the
+old angle from the cache, turns by `requested - cached` and stores the re-measured torsion; after
+the last change the torsion is the last requested angle — whatever the earlier requests were
+(none of them within the snapping range). -/
+theorem torsion_sequence (small : ℝ) (hs : 0 < small) (c1 c2 c3 : V3 ℝ) (st : V3 ℝ × ℝ)
+    (hg : Good small c1 c2 c3 st) (angles : List ℝ) (last : ℝ)
+    (hns : ∀ a ∈ angles, NoSnap small a) :
+    cosTor c1 c2 c3 ((angles ++ [last]).foldl (stepTor small c1 c2 c3) st).1 = Real.cos (rad last) ∧
+    sinTor c1 c2 c3 ((angles ++ [last]).foldl (stepTor small c1 c2 c3) st).1 = Real.sin (rad last) :=
+  torsion_sequence_core small hs c1 c2 c3 st hg angles last hns
+
+/-- non-vacuity: a torsion of 90 degrees satisfies the hypothesis -/
+example : NonDeg (⟨1, 0, 0⟩ : V3 ℝ) ⟨0, 0, 0⟩ ⟨0, 0, 1⟩ ⟨0, 1, 1⟩ := by
+  constructor <;> norm_num [V3.cross, V3.sub, V3.dot]
+
+end torsion
 
 end P2P.Props.C15
